@@ -53,3 +53,243 @@ package starkcurve
 //@ ensures[result] result == p
 //@ modifies p
 //@ end
+
+// The addition formulas, negation and conversions: the clauses of the generated curves (contracts/point/g1.go.tmpl)
+// with a = 1 and this package's parameter names.
+
+//@ func G1Jac.AddAssign
+//@ layer ring fp.Element
+//@ option distribute
+//@ ghost-param px, py, qx, qy
+//@ let p.X = px*p.Z*p.Z
+//@ let p.Y = py*p.Z*p.Z*p.Z
+//@ let a.X = qx*a.Z*a.Z
+//@ let a.Y = qy*a.Z*a.Z*a.Z
+//@ scenario p-infinity: p.Z = 0; free p.X; free p.Y
+//@ scenario a-infinity: a.Z = 0; free a.X; free a.Y
+//@ scenario both-infinity: p.Z = 0; free p.X; free p.Y; a.Z = 0; free a.X; free a.Y
+//@ ghost pinf = iszero(p.Z)
+//@ ghost qinf = iszero(a.Z)
+//@ ghost same = iszero(a.X*p.Z*p.Z - p.X*a.Z*a.Z) && iszero(a.Y*p.Z*p.Z*p.Z - p.Y*a.Z*a.Z*a.Z)
+//@ ensures[p-infinity] pinf ==> p.X == old(a.X) && p.Y == old(a.Y) && p.Z == old(a.Z)
+//@ ensures[a-infinity] !pinf && qinf ==> p.X == old(p.X) && p.Y == old(p.Y) && p.Z == old(p.Z)
+//@ ensures[double-x] !pinf && !qinf && same ==> p.X * 4*py*py == ecDblXNum(px, py, 1) * p.Z*p.Z
+//@ ensures[double-y] !pinf && !qinf && same ==> p.Y * 8*py*py*py == ecDblYNum(px, py, 1) * p.Z*p.Z*p.Z
+//@ ensures[double-z] !pinf && !qinf && same ==> p.Z == 2*py*pow(old(p.Z),4)
+//@ ensures[chord-x] !pinf && !qinf && !same ==> p.X * pow(ecD(px,py,qx,qy),2) == ecAddXNum(px,py,qx,qy) * p.Z*p.Z
+//@ ensures[chord-y] !pinf && !qinf && !same ==> p.Y * pow(ecD(px,py,qx,qy),3) == ecAddYNum(px,py,qx,qy) * p.Z*p.Z*p.Z
+//@ ensures[chord-z] !pinf && !qinf && !same ==> p.Z == -2*ecD(px,py,qx,qy)*pow(old(p.Z),3)*pow(old(a.Z),3)
+//@ ensures[result] result == p
+//@ modifies p
+//@ end
+
+// AddMixed doubles the receiver itself (DoubleAssign) when both operands are the same point: the doubling clauses
+// are those of AddAssign, not those of the DoubleMixed of the generated curves.
+//@ func G1Jac.AddMixed
+//@ layer ring fp.Element
+//@ option distribute
+//@ ghost-param px, py
+//@ let p.X = px*p.Z*p.Z
+//@ let p.Y = py*p.Z*p.Z*p.Z
+//@ scenario p-infinity: p.Z = 0; free p.X; free p.Y
+//@ ghost ainf = iszero(a.X) && iszero(a.Y)
+//@ ghost pinf = iszero(p.Z)
+//@ ghost same = iszero(a.X*p.Z*p.Z - p.X) && iszero(a.Y*p.Z*p.Z*p.Z - p.Y)
+//@ ensures[a-infinity] ainf ==> p.X == old(p.X) && p.Y == old(p.Y) && p.Z == old(p.Z)
+//@ ensures[p-infinity] !ainf && pinf ==> p.X == a.X && p.Y == a.Y && p.Z == 1
+//@ ensures[double-x] !ainf && !pinf && same ==> p.X * 4*py*py == ecDblXNum(px, py, 1) * p.Z*p.Z
+//@ ensures[double-y] !ainf && !pinf && same ==> p.Y * 8*py*py*py == ecDblYNum(px, py, 1) * p.Z*p.Z*p.Z
+//@ ensures[double-z] !ainf && !pinf && same ==> p.Z == 2*py*pow(old(p.Z),4)
+//@ ensures[chord-x] !ainf && !pinf && !same ==> p.X * pow(ecD(px,py,a.X,a.Y),2) == ecAddXNum(px,py,a.X,a.Y) * p.Z*p.Z
+//@ ensures[chord-y] !ainf && !pinf && !same ==> p.Y * pow(ecD(px,py,a.X,a.Y),3) == ecAddYNum(px,py,a.X,a.Y) * p.Z*p.Z*p.Z
+//@ ensures[chord-z] !ainf && !pinf && !same ==> p.Z == 2*ecD(px,py,a.X,a.Y)*pow(old(p.Z),3)
+//@ ensures[result] result == p
+//@ modifies p
+//@ end
+
+//@ func G1Jac.SubAssign
+//@ layer ring fp.Element
+//@ option distribute
+//@ ghost-param px, py, qx, qy
+//@ let p.X = px*p.Z*p.Z
+//@ let p.Y = py*p.Z*p.Z*p.Z
+//@ let a.X = qx*a.Z*a.Z
+//@ let a.Y = qy*a.Z*a.Z*a.Z
+//@ scenario p-infinity: p.Z = 0; free p.X; free p.Y
+//@ scenario a-infinity: a.Z = 0; free a.X; free a.Y
+//@ scenario both-infinity: p.Z = 0; free p.X; free p.Y; a.Z = 0; free a.X; free a.Y
+//@ ghost pinf = iszero(p.Z)
+//@ ghost qinf = iszero(a.Z)
+//@ ghost same = iszero(a.X*p.Z*p.Z - p.X*a.Z*a.Z) && iszero(-a.Y*p.Z*p.Z*p.Z - p.Y*a.Z*a.Z*a.Z)
+//@ ensures[p-infinity] pinf ==> p.X == old(a.X) && p.Y == -old(a.Y) && p.Z == old(a.Z)
+//@ ensures[a-infinity] !pinf && qinf ==> p.X == old(p.X) && p.Y == old(p.Y) && p.Z == old(p.Z)
+//@ ensures[double-x] !pinf && !qinf && same ==> p.X * 4*py*py == ecDblXNum(px, py, 1) * p.Z*p.Z
+//@ ensures[double-y] !pinf && !qinf && same ==> p.Y * 8*py*py*py == ecDblYNum(px, py, 1) * p.Z*p.Z*p.Z
+//@ ensures[chord-x] !pinf && !qinf && !same ==> p.X * pow(ecD(px,py,qx,-qy),2) == ecAddXNum(px,py,qx,-qy) * p.Z*p.Z
+//@ ensures[chord-y] !pinf && !qinf && !same ==> p.Y * pow(ecD(px,py,qx,-qy),3) == ecAddYNum(px,py,qx,-qy) * p.Z*p.Z*p.Z
+//@ ensures[chord-z] !pinf && !qinf && !same ==> p.Z == -2*ecD(px,py,qx,-qy)*pow(old(p.Z),3)*pow(old(a.Z),3)
+//@ ensures[result] result == p
+//@ modifies p
+//@ end
+
+//@ func G1Jac.Neg
+//@ layer ring fp.Element
+//@ option distribute
+//@ option inline
+//@ ensures[value] p.X == old(q.X) && p.Y == -old(q.Y) && p.Z == old(q.Z)
+//@ ensures[result] result == p
+//@ modifies p
+//@ end
+
+//@ func G1Jac.Set
+//@ layer ring fp.Element
+//@ option distribute
+//@ option inline
+//@ ensures[value] p.X == old(q.X) && p.Y == old(q.Y) && p.Z == old(q.Z)
+//@ ensures[result] result == p
+//@ modifies p
+//@ end
+
+//@ func G1Jac.Double
+//@ layer ring fp.Element
+//@ option distribute
+//@ ghost-param px, py
+//@ let q.X = px*q.Z*q.Z
+//@ let q.Y = py*q.Z*q.Z*q.Z
+//@ scenario q-infinity: q.Z = 0; free q.X; free q.Y
+//@ ensures[x] old(q.Z) != 0 ==> p.X * 4*py*py == ecDblXNum(px, py, 1) * p.Z*p.Z
+//@ ensures[y] old(q.Z) != 0 ==> p.Y * 8*py*py*py == ecDblYNum(px, py, 1) * p.Z*p.Z*p.Z
+//@ ensures[z] old(q.Z) != 0 ==> p.Z == 2*py*pow(old(q.Z),4)
+//@ ensures[infinity] old(q.Z) == 0 ==> p.Z == 0
+//@ ensures[result] result == p
+//@ modifies p
+//@ end
+
+//@ func G1Jac.FromAffine
+//@ layer ring fp.Element
+//@ option distribute
+//@ ghost ainf = iszero(Q.X) && iszero(Q.Y)
+//@ ensures[infinity] ainf ==> p.Z == 0
+//@ ensures[finite] !ainf ==> p.X == Q.X && p.Y == Q.Y && p.Z == 1
+//@ ensures[result] result == p
+//@ modifies p
+//@ end
+
+//@ func G1Affine.Neg
+//@ layer ring fp.Element
+//@ option distribute
+//@ option inline
+//@ ensures[value] p.X == old(a.X) && p.Y == -old(a.Y)
+//@ ensures[result] result == p
+//@ modifies p
+//@ end
+
+//@ func G1Affine.FromJacobian
+//@ layer ring fp.Element
+//@ option distribute
+//@ option inline
+//@ alias none
+//@ ensures[infinity] iszero(p1.Z) ==> p.X == 0 && p.Y == 0
+//@ ensures[finite] !iszero(p1.Z) ==> p.X == p1.X*inv(p1.Z)*inv(p1.Z) && p.Y == p1.Y*inv(p1.Z)*inv(p1.Z)*inv(p1.Z)
+//@ ensures[result] result == p
+//@ modifies p
+//@ end
+
+//@ func g1JacExtended.add
+//@ layer ring fp.Element
+//@ option distribute
+//@ alias none
+//@ ghost-param px, py, t, qx, qy, s
+//@ let p.ZZ = t*t
+//@ let p.ZZZ = t*t*t
+//@ let p.X = px*t*t
+//@ let p.Y = py*t*t*t
+//@ let q.ZZ = s*s
+//@ let q.ZZZ = s*s*s
+//@ let q.X = qx*s*s
+//@ let q.Y = qy*s*s*s
+//@ scenario p-infinity: p.ZZ = 0; p.ZZZ = 0; free p.X; free p.Y
+//@ scenario q-infinity: q.ZZ = 0; q.ZZZ = 0; free q.X; free q.Y
+//@ scenario both-infinity: p.ZZ = 0; p.ZZZ = 0; free p.X; free p.Y; q.ZZ = 0; q.ZZZ = 0; free q.X; free q.Y
+//@ ghost qinf = iszero(q.ZZ)
+//@ ghost pinf = iszero(p.ZZ)
+//@ ghost eqx = iszero(q.X*p.ZZ - p.X*q.ZZ)
+//@ ghost eqy = iszero(q.Y*p.ZZZ - p.Y*q.ZZZ)
+//@ ensures[q-infinity] qinf ==> p.X == old(p.X) && p.Y == old(p.Y) && p.ZZ == old(p.ZZ) && p.ZZZ == old(p.ZZZ)
+//@ ensures[p-infinity] !qinf && pinf ==> p.X == old(q.X) && p.Y == old(q.Y) && p.ZZ == old(q.ZZ) && p.ZZZ == old(q.ZZZ)
+//@ ensures[opposite] !qinf && !pinf && eqx && !eqy ==> p.ZZ == 0 && p.ZZZ == 0
+//@ ensures[double-x] !qinf && !pinf && eqx && eqy ==> p.X * 4*qy*qy == ecDblXNum(qx, qy, 1) * p.ZZ
+//@ ensures[double-y] !qinf && !pinf && eqx && eqy ==> p.Y * 8*qy*qy*qy == ecDblYNum(qx, qy, 1) * p.ZZZ
+//@ ensures[double-z] !qinf && !pinf && eqx && eqy ==> p.ZZ == pow(2*qy*pow(s,4),2) && p.ZZZ == pow(2*qy*pow(s,4),3)
+//@ ensures[chord-x] !qinf && !pinf && !eqx ==> p.X * pow(ecD(px,py,qx,qy),2) == ecAddXNum(px,py,qx,qy) * p.ZZ
+//@ ensures[chord-y] !qinf && !pinf && !eqx ==> p.Y * pow(ecD(px,py,qx,qy),3) == ecAddYNum(px,py,qx,qy) * p.ZZZ
+//@ ensures[chord-z] !qinf && !pinf && !eqx ==> p.ZZ == pow(ecD(px,py,qx,qy)*pow(t,3)*pow(s,3),2) && p.ZZZ == pow(ecD(px,py,qx,qy)*pow(t,3)*pow(s,3),3)
+//@ ensures[result] result == p
+//@ modifies p
+//@ end
+
+//@ func g1JacExtended.addMixed
+//@ layer ring fp.Element
+//@ option distribute
+//@ ghost-param px, py, t
+//@ let p.ZZ = t*t
+//@ let p.ZZZ = t*t*t
+//@ let p.X = px*t*t
+//@ let p.Y = py*t*t*t
+//@ scenario p-infinity: p.ZZ = 0; p.ZZZ = 0; free p.X; free p.Y
+//@ ghost ainf = iszero(a.X) && iszero(a.Y)
+//@ ghost pinf = iszero(p.ZZ)
+//@ ghost eqx = iszero(a.X*p.ZZ - p.X)
+//@ ghost eqy = iszero(a.Y*p.ZZZ - p.Y)
+//@ ensures[a-infinity] ainf ==> p.X == old(p.X) && p.Y == old(p.Y) && p.ZZ == old(p.ZZ) && p.ZZZ == old(p.ZZZ)
+//@ ensures[p-infinity] !ainf && pinf ==> p.X == a.X && p.Y == a.Y && p.ZZ == 1 && p.ZZZ == 1
+//@ ensures[opposite] !ainf && !pinf && eqx && !eqy ==> p.ZZ == 0 && p.ZZZ == 0
+//@ ensures[double-x] !ainf && !pinf && eqx && eqy ==> p.X * 4*a.Y*a.Y == ecDblXNum(a.X, a.Y, 1) * p.ZZ
+//@ ensures[double-y] !ainf && !pinf && eqx && eqy ==> p.Y * 8*a.Y*a.Y*a.Y == ecDblYNum(a.X, a.Y, 1) * p.ZZZ
+//@ ensures[double-z] !ainf && !pinf && eqx && eqy ==> p.ZZ == pow(2*a.Y,2) && p.ZZZ == pow(2*a.Y,3)
+//@ ensures[chord-x] !ainf && !pinf && !eqx ==> p.X * pow(ecD(px,py,a.X,a.Y),2) == ecAddXNum(px,py,a.X,a.Y) * p.ZZ
+//@ ensures[chord-y] !ainf && !pinf && !eqx ==> p.Y * pow(ecD(px,py,a.X,a.Y),3) == ecAddYNum(px,py,a.X,a.Y) * p.ZZZ
+//@ ensures[chord-z] !ainf && !pinf && !eqx ==> p.ZZ == pow(ecD(px,py,a.X,a.Y)*pow(t,3),2) && p.ZZZ == pow(ecD(px,py,a.X,a.Y)*pow(t,3),3)
+//@ ensures[result] result == p
+//@ modifies p
+//@ end
+
+//@ func g1JacExtended.subMixed
+//@ layer ring fp.Element
+//@ option distribute
+//@ ghost-param px, py, t
+//@ let p.ZZ = t*t
+//@ let p.ZZZ = t*t*t
+//@ let p.X = px*t*t
+//@ let p.Y = py*t*t*t
+//@ scenario p-infinity: p.ZZ = 0; p.ZZZ = 0; free p.X; free p.Y
+//@ ghost ainf = iszero(a.X) && iszero(a.Y)
+//@ ghost pinf = iszero(p.ZZ)
+//@ ghost eqx = iszero(a.X*p.ZZ - p.X)
+//@ ghost eqy = iszero(-a.Y*p.ZZZ - p.Y)
+//@ ensures[a-infinity] ainf ==> p.X == old(p.X) && p.Y == old(p.Y) && p.ZZ == old(p.ZZ) && p.ZZZ == old(p.ZZZ)
+//@ ensures[p-infinity] !ainf && pinf ==> p.X == a.X && p.Y == -a.Y && p.ZZ == 1 && p.ZZZ == 1
+//@ ensures[opposite] !ainf && !pinf && eqx && !eqy ==> p.ZZ == 0 && p.ZZZ == 0
+//@ ensures[double-x] !ainf && !pinf && eqx && eqy ==> p.X * 4*a.Y*a.Y == ecDblXNum(a.X, -a.Y, 1) * p.ZZ
+//@ ensures[double-y] !ainf && !pinf && eqx && eqy ==> p.Y * 8*(-a.Y)*a.Y*a.Y == ecDblYNum(a.X, -a.Y, 1) * p.ZZZ
+//@ ensures[chord-x] !ainf && !pinf && !eqx ==> p.X * pow(ecD(px,py,a.X,-a.Y),2) == ecAddXNum(px,py,a.X,-a.Y) * p.ZZ
+//@ ensures[chord-y] !ainf && !pinf && !eqx ==> p.Y * pow(ecD(px,py,a.X,-a.Y),3) == ecAddYNum(px,py,a.X,-a.Y) * p.ZZZ
+//@ ensures[chord-z] !ainf && !pinf && !eqx ==> p.ZZ == pow(ecD(px,py,a.X,-a.Y)*pow(t,3),2) && p.ZZZ == pow(ecD(px,py,a.X,-a.Y)*pow(t,3),3)
+//@ ensures[result] result == p
+//@ modifies p
+//@ end
+
+// fromJacExtended tests Q.ZZ itself (the generated curves have an unchecked variant): the value clause is guarded
+// by the code's own zero test; the infinity branch copies the package-level g1Infinity, whose value is not stated.
+//@ func G1Jac.fromJacExtended
+//@ layer ring fp.Element
+//@ option distribute
+//@ ghost-param qx, qy, s
+//@ let Q.ZZ = s*s
+//@ let Q.ZZZ = s*s*s
+//@ let Q.X = qx*s*s
+//@ let Q.Y = qy*s*s*s
+//@ ensures[value] !iszero(old(Q.ZZ)) ==> p.X == qx*p.Z*p.Z && p.Y == qy*p.Z*p.Z*p.Z && p.Z == pow(s,3)
+//@ ensures[result] result == p
+//@ modifies p
+//@ end
